@@ -417,6 +417,9 @@ func c11GenCaseKinds(r *rand.Rand, synth []string, sizes []int, nsets int, kinds
 	if r.IntN(10) == 0 {
 		c.BitLen = []int{32, 64, 96}[r.IntN(3)]
 	}
+	if nsets > c.BitLen {
+		c.BitLen = 1024
+	}
 	used := map[int]bool{}
 	for si := 0; si < nsets; si++ {
 		var bit int
@@ -908,6 +911,17 @@ func c11Matchers(m *vk.Monitor) {
 		{Bit: 1023, Adds: []c11Add{{Kind: "suffix", Patterns: []string{"com", "a*b.com", "_https._tcp.a-b.com"}, cores: []string{"com", "ab.com", "_https._tcp.a-b.com"}}}},
 	}}
 	c11RunCase(m, r, hand, o, log)
+	// programs that use (nearly) every match-set slot: Build() constructs the sets of a matcher with
+	// several workers at once; every single set must still answer for its own patterns afterwards
+	for i := 0; i < vk.Scale(5, 40); i++ {
+		nsets := []int{1024, 700, 257, 1024, 64}[i%5]
+		sizes := make([]int, nsets)
+		for k := range sizes {
+			sizes[k] = 1 + r.IntN(2)
+		}
+		c11RunCase(m, r, c11GenCaseKinds(r, synth, sizes, nsets, []string{"suffix", "keyword", "full", "suffix", "keyword"}), o, log)
+		m.Count("wide_programs_cases", 1)
+	}
 	// one geosite-sized-ish set in every tier: rank/select entries wider than 16 bits
 	c11RunCase(m, r, c11GenCaseKinds(r, synth, []int{8000, 2}, 2, []string{"suffix", "full", "suffix"}), o, log)
 	if vk.Thorough() {
